@@ -353,6 +353,26 @@ func deepOracles(run *vh.Run, g *HGen) [][2]string {
 		}
 	}
 
+	// ---- the C wrappers turn the returned error value into a Lua error
+	okCond := map[string]bool{"r != NULL": true, "r.r1 != NULL": true, "r.r0 < 0": true, "(r = call) != NULL": true}
+	var errChecks []string
+	has := map[string]bool{}
+	for _, r := range g.C.ErrChecks {
+		run.Eval("cerr "+r[0]+" "+r[1], true)
+		has[r[0]] = true
+		errChecks = append(errChecks, r[0]+"="+r[1]+"="+strings.ReplaceAll(r[2], " ", "_")+"="+r[3])
+		if r[3] != "raise" || !okCond[r[2]] {
+			run.Fail(fmt.Sprintf("C function %s calls %s but does not turn its error value into a Lua error (test: %s, %s)", r[1], r[0], r[2], r[3]),
+				map[string]interface{}{"callback": r[0], "c_function": r[1], "test": r[2], "action": r[3],
+					"how": "the Go callback refuses with an error message in a read-only context; the wrapper must raise it (luaL_throwerror), otherwise the Lua call returns normally"})
+		}
+	}
+	for _, n := range g.C.Refusing {
+		if !has[n] {
+			run.Fail("no C wrapper of the refusing callback "+n+" was found", map[string]interface{}{"callback": n})
+		}
+	}
+
 	ro := append([]string(nil), fx.RoCallees...)
 	sort.Strings(ro)
 	var opens []string
@@ -373,7 +393,7 @@ func deepOracles(run *vh.Run, g *HGen) [][2]string {
 		{"flagForeign", pairs(fx.FlagForeign)}, {"ctxArgs", triples(fx.CtxArgs)}, {"isViewWrites", pairs(fx.IsViewWrites)},
 		{"sqlOpens", strings.Join(opens, " ")}, {"sqlExecs", triples(fx.SQLExecs)}, {"ifaceImpls", triples(fx.IfaceImpls)},
 		{"flagBranches", triples(fx.FlagBranches)}, {"roCallees", strings.Join(ro, " ")}, {"checkViewRet", strings.Join(cvr, " ")},
-		{"refuseExempt", strings.Join(ex, " ")}, {"refuseOK", fmt.Sprint(refuseOK)}, {"viewBracket", viewBracket}, {"isViewSet", isViewSet},
+		{"refuseExempt", strings.Join(ex, " ")}, {"cErrChecks", strings.Join(errChecks, " ")}, {"refuseOK", fmt.Sprint(refuseOK)}, {"viewBracket", viewBracket}, {"isViewSet", isViewSet},
 	}
 }
 
